@@ -418,5 +418,127 @@ def vwfBody : Body → Bool
   | .root _ items => vwfItems items items
   | .derived .. => false
 
+
+/-! ### the serializer (`FieldSerializer`, `Builder::Serialize` / `T::Serialize`) -/
+
+def flagOptsIn (cid : String) : List BitField → Option (List (String × Nat))
+  | [] => none
+  | .flag id opts :: r => if id == cid then some opts else flagOptsIn cid r
+  | _ :: r => flagOptsIn cid r
+
+/-- the optional fields listed by the condition flag `cid` -/
+def flagOpts (cid : String) : Items → Option (List (String × Nat))
+  | .nil => none
+  | .cons (.chunk fs) r => (flagOptsIn cid fs).or (flagOpts cid r)
+  | .cons _ r => flagOpts cid r
+
+/-- `(o_.has_value() ? present : absent)`: the flag is taken from the FIRST optional field it lists -/
+def flagValue (v : Value) : List (String × Nat) → Enc Nat
+  | [] => .panic .badLayout
+  | (o, setv) :: _ => .ok (if isPresent v o then setv else (if setv = 0 then 1 else 0))
+
+/-- the values packed into one bit-field group, as cxx.rs emits them: NO range check anywhere — a scalar is masked
+    to its width, a size or a count is shifted in unmasked (a value beyond its field spills into the fields above
+    it: outside the model, `.panic .badLayout`), the flag comes from the first optional field it governs without a
+    consistency check; size modifiers apply to payloads and arrays alike.  `GetSize()` of a struct is taken to be
+    the octets it serializes to (`sizeOfTarget`; compared by execution). -/
+def encChunkFields (items : Items) (payloadLen : Nat) (v : Value) : List BitField → Nat → Nat → Enc Nat
+  | [], _, acc => .ok acc
+  | f :: fs, shift, acc =>
+    let next (x : Nat) := encChunkFields items payloadLen v fs (shift + f.width) (acc + x * 2 ^ shift)
+    match f with
+    | .scalar id w =>
+      (natField v id).bind fun x => if x ≥ 2 ^ backingOf w then .panic .badValue else next (x % 2 ^ w)
+    | .flag _ opts => (flagValue v opts).bind next
+    | .enumTy id _ e =>
+      (natField v id).bind fun x => if x < 2 ^ e.width then next x else .panic .badLayout
+    | .fixed _ c => next c
+    | .reserved _ => next 0
+    | .size t w m =>
+      (sizeOfTarget items t payloadLen v).bind fun s => if s + m > maskBits w then .panic .badLayout else next (s + m)
+    | .count t w => (listField v t).bind fun vs => if vs.length > maskBits w then .panic .badLayout else next vs.length
+    | .elemSize _ _ => .panic .badLayout
+
+mutual
+/-- one array element / typedef / optional value: `write_le/be<T, N>(output, static_cast<T>(x))` keeps the low
+    N octets, `x.Serialize(output)` for structs -/
+def encTy (c : Cfg) : Ty → Value → Enc Bytes
+  | .scalar w, v =>
+    match v with
+    | .int x => if x ≥ 2 ^ backingOf w then .panic .badValue else .ok (putUint c.e w (x % 2 ^ w))
+    | _ => .panic .badValue
+  | .enumTy _ en, v =>
+    match v with
+    | .int x => if x ≥ 2 ^ backingOf en.width then .panic .badValue else .ok (putUint c.e en.width (x % 2 ^ en.width))
+    | _ => .panic .badValue
+  | .custom _ _, _ => .panic .badLayout
+  | .struct _ b, v => encBody c b v
+
+def encItem (c : Cfg) (all : Items) (payload : Bytes) (v : Value) : Item → Enc Bytes
+  | .chunk fs => (encChunkFields all payload.length v fs 0 0).bind fun x => .ok (putUint c.e (chunkBits fs) x)
+  | .typedef id ty _ =>
+    match v.get? id with
+    | some x => encTy c ty x
+    | none => .panic .badValue
+  | .optional id ty cid cval =>
+    -- `if (<flag expression> == cond_value) { write(*x_) }`: the FLAG decides, not `x_.has_value()`
+    match flagOpts cid all with
+    | none => .panic .badLayout
+    | some opts =>
+      (flagValue v opts).bind fun fv =>
+        if fv = cval then
+          match v.get? id with
+          | some .null | none => .panic .badValue          -- `*x_` of an empty optional: undefined behaviour
+          | some x => encTy c ty x
+        else .ok []
+  | .payload _ => .ok payload
+  | .array id elem _ shape pd =>
+    (listField v id).bind fun vs =>
+    (checkCount shape vs.length).bind fun _ =>
+    (encListWith (encTy c elem) vs).bind fun bs => .ok (Py.pad pd bs)
+
+def encItems (c : Cfg) (all : Items) (payload : Bytes) (v : Value) : Items → Enc Bytes
+  | .nil => .ok []
+  | .cons i r => (encItem c all payload v i).bind fun a => (encItems c all payload v r).bind fun b => .ok (a ++ b)
+
+/-- `Serialize` of a packet builder or struct without parent -/
+def encBody (c : Cfg) : Body → Value → Enc Bytes
+  | .root _ items, v =>
+    match (if items.hasPayload then (v.get? "payload").bind valBytes else some []) with
+    | none => .panic .badValue
+    | some p => encItems c items p v items
+  | .derived .., _ => .panic .badLayout
+end
+
+mutual
+/-- serializer side of the class: no element-size or custom fields, widths up to 64, every condition flag governs
+    exactly one optional field (a flag shared by several is serialized from the first of them only) -/
+def serWfTy : Ty → Bool
+  | .custom .. => false
+  | .struct _ (.root _ items) => serWfItems items items
+  | .struct _ (.derived ..) => false
+  | .scalar w => decide (w ≤ 64)
+  | .enumTy _ e => decide (e.width ≤ 64)
+def serWfItem (all : Items) : Item → Bool
+  | .chunk fs => fs.all fun f => match f with
+      | .elemSize .. => false
+      | .scalar _ w => decide (w ≤ 64)
+      | .enumTy _ _ e => decide (e.width ≤ 64)
+      | .count _ w => decide (w ≤ 64)
+      | .flag _ opts => opts.length == 1 && opts.all (fun o => decide (o.2 ≤ 1))
+      | _ => true
+  | .typedef _ ty _ => serWfTy ty
+  | .optional id ty cid cval => serWfTy ty && flagOpts cid all == some [(id, cval)] && decide (cval ≤ 1)
+  | .payload _ => true
+  | .array _ elem _ _ _ => serWfTy elem
+def serWfItems (all : Items) : Items → Bool
+  | .nil => true
+  | .cons i r => serWfItem all i && serWfItems all r
+end
+
+def serWfBody : Body → Bool
+  | .root _ items => serWfItems items items
+  | .derived .. => false
+
 end Cxx
 end Pdlv
